@@ -204,6 +204,7 @@ def run(tier, seed, replay):
     bindir = vcommon.cargo_build("genrun", bins=["c29"])
     exe = os.path.join(bindir, "c29")
     scratch = vcommon.scratch_dir("c29")
+    t0 = os.times()
     try:
         env = vcommon.base_env()
         jobs = []
@@ -245,6 +246,8 @@ def run(tier, seed, replay):
             rep.distinct_extra += FLOORS[tier][1]
         rep.assumptions += ["doc comment ground truth = wit_parser Docs.contents of every item the generator renders",
                             "raw cases whose doc comments open a fenced code block skip the HTML oracles; the same world is re-run with ``` replaced by '''"]
+        t1 = os.times()
+        rep.extra["children_cpu_s"] = round((t1.children_user - t0.children_user) + (t1.children_system - t0.children_system), 1)
         return rep
     finally:
         vcommon.rm_scratch(scratch)
